@@ -18,7 +18,7 @@ MLENS = [0, 1, 55, 56, 63, 64, 65, 119, 120, 300]
 def params(tier):
     if tier == "quick":
         return dict(maxlen=300, max3=130, maxkey=200, extra=[])
-    return dict(maxlen=600, max3=300, maxkey=200, extra=[1000, 4095, 4096, 65537])
+    return dict(maxlen=1500, max3=400, maxkey=300, extra=[4095, 4096, 65537, 1000003])
 
 def build(ctx):
     return ctx.compile("c17", [ctx.verif("harness/c17_sha256.cpp"), ctx.repo("src/Crypto/Sha256.cpp"),
